@@ -198,6 +198,7 @@ func Main(prop string, level string, body func(c *Ctx)) {
 		Prop: prop, Level: level, Seed: envInt("VERIF_SEED", 1), Tier: os.Getenv("VERIF_TIER"),
 		counters: map[string]int64{}, sigs: map[string]struct{}{}, violSeen: map[string]int{},
 		extra: map[string]any{}, maxSamples: 6, start: time.Now(), VerifDir: verifDir(),
+		Assume: []string{},
 	}
 	if c.Tier != "thorough" {
 		c.Tier = "quick"
